@@ -128,13 +128,8 @@ def coq_compare(ctx, scs, outs, fixed, tag):
         rc, out = ctx.coq_eval("%s_%d" % (tag, idx0), G.cases_file(items))
         if rc != 0:
             raise RuntimeError("model evaluation failed:\n" + out[-3000:])
-        flat = " ".join(out.split())
-        import re
-        m = re.search(r"M = (\[.*?\]|nil) : list", flat)
-        if not m:
-            raise RuntimeError("cannot parse model evaluation output:\n" + out[-2000:])
-        for t in re.finditer(r"\((\d+)%nat, \((\d+)%nat, \[([^\]]*)\]\)\)", m.group(1)):
-            mism.append((idx0 + int(t.group(1)), int(t.group(2)), [int(x) for x in re.findall(r"\d+", t.group(3))]))
+        for a, b, cs in G.parse_bad_list(out, "M", r"\((\d+)(?:%nat)?, \((\d+)(?:%nat)?, \[([^\]]*)\]\)\)"):
+            mism.append((idx0 + int(a), int(b), [int(x) for x in __import__("re").findall(r"\d+", cs)]))
 
     G.reset_names()
     for i, (sc, o) in enumerate(zip(scs, outs)):
@@ -203,6 +198,7 @@ def run(ctx):
 
     # ---------------------------------------------------------------- direct predicates
     fails, known = [], list(panics)
+    lowest_ties = 0
     hist = {}
     nontriv = set()
     for sc, o in zip(scs, outs):
@@ -231,10 +227,13 @@ def run(ctx):
                         known.append(("C15:param-negative-sign-dropped",
                                       "in-memory system parameter differs from the one loaded from state at a block boundary (negative vote candidate, sign dropped by Bytes())",
                                       {"scenario": sc, "step": k - 1, "param": pi, "memory": d["pcur"][pi], "state": want}))
-            if d["mem"].get("treecorrupt") or (at_boundary and not has_ghost and not d["equals"] and G.vpr_mem_equals_reload(d)):
+            tree_differs = at_boundary and not has_ghost and G.vpr_mem_equals_reload(d) and (d["mem"]["tree"] or []) != (d["reload"]["tree"] or [])
+            if d["mem"].get("treecorrupt") or tree_differs:
                 known.append(("C15:vpr-rbtree-stale-node",
                               "topVoters red-black tree holds a stale node (key mutated in place before Remove): vpr.equals(loadVpr) false / Keys() panics",
                               {"scenario": sc, "step": k - 1, "treecorrupt": d["mem"].get("treecorrupt")}))
+            elif at_boundary and not has_ghost and not d["equals"] and G.vpr_mem_equals_reload(d) and d["mem"]["low"] != d["reload"]["low"]:
+                lowest_ties += 1      # vpr.lowest among voters of equal power depends on the visiting order; the field is never read
             nontriv.add((op["op"], d["err"], len([a for a in d["accs"] if a["sp"]]), sum(1 for r in d["res"] if r["l"])))
         rule_predicates(sc, dumps, fails)
     if len(p0.get("twin_orders", [])) > 1:
@@ -244,6 +243,9 @@ def run(ctx):
 
     phase["gov_engine"] = round(time.time() - t0, 1)
     t0 = time.time()
+    if G.perturb("gov"):       # self-test: falsify one observed staking total
+        dd = outs[-1]["dumps"][-1]
+        dd["total"] = str(int(dd["total"]) + 1)
     # ---------------------------------------------------------------- model correspondence
     corr_broken = None
     try:
@@ -278,20 +280,23 @@ def run(ctx):
         G.name_predicates(sc, o["dumps"], fails)
         nsteps += len(sc["ops"])
         nontriv.update(("name", op["op"], d["err"]) for op, d in zip(sc["ops"], o["dumps"][1:]))
-    import re
+    if G.perturb("names"):     # self-test: falsify one observed aergo.name balance
+        dd = nouts[-1]["dumps"][-1]
+        dd["namebal"] = str(int(dd["namebal"]) + 1)
     for base in range(0, len(nscs), 300):
         items = [G.name_scenario_to_coq(sc, o["dumps"]) for sc, o in zip(nscs[base:base + 300], nouts[base:base + 300])]
         rc, out = ctx.coq_eval("names_%d" % base, G.name_cases_file(items))
-        flat = " ".join(out.split())
-        m = re.search(r"MN = (\[.*?\]|nil) : list", flat)
-        if rc != 0 or not m:
-            corr_broken = corr_broken or ("name model evaluation failed", out[-2000:])
-        else:
-            bad = re.findall(r"\((\d+)%nat, (\d+)%nat\)", m.group(1))
-            if bad:
-                i, k = int(bad[0][0]) + base, int(bad[0][1])
-                corr_broken = corr_broken or ("model/implementation differ on the name registry",
-                                              {"scenario": nscs[i], "step": k, "op": nscs[i]["ops"][k], "observed": nouts[i]["dumps"][k + 1]})
+        try:
+            if rc != 0:
+                raise RuntimeError(out[-2000:])
+            bad = G.parse_bad_list(out, "MN", r"\((\d+)(?:%nat)?, (\d+)(?:%nat)?\)")
+        except RuntimeError as ex:
+            corr_broken = corr_broken or ("name model evaluation failed", str(ex)[-2000:])
+            bad = []
+        if bad:
+            i, k = int(bad[0][0]) + base, int(bad[0][1])
+            corr_broken = corr_broken or ("model/implementation differ on the name registry",
+                                          {"scenario": nscs[i], "step": k, "op": nscs[i]["ops"][k], "observed": nouts[i]["dumps"][k + 1]})
     steps += nsteps
     phase["names"] = round(time.time() - t0, 1)
     ctx.cov["phase_seconds"] = phase
@@ -328,6 +333,8 @@ def run(ctx):
 
     ctx.cov["evaluations"] = steps
     ctx.cov["traces_validated_against_impl"] = len(scs) + len(nscs)
+    if lowest_ties:
+        ctx.notes.append("vpr.lowest differs between memory and loadVpr(state) in %d dumps (equal voting powers: which of them is 'lowest' depends on the visiting order); the field is never read by the node" % lowest_ties)
     ctx.cov["distinct_nontrivial"] = len(nontriv)
     ctx.cov["rule"] = ("one evaluation = one governance operation executed by the real code and by the model with every observable compared; "
                        "distinct = distinct (operation, outcome class, number of stakers, number of non-empty rankings) tuples reached")
@@ -338,16 +345,17 @@ def run(ctx):
 
     # ---------------------------------------------------------------- decide
     seen = set()
+    hard = False          # a failing input was reported as a violation
     for key, what, rep in known:
         if key in seen:
             continue
         seen.add(key)
-        ctx.finding(key, what, rep)
+        hard |= bool(ctx.finding(key, what, rep))
     for what, rep in fails[:3]:
-        ctx.finding("C15:" + what.split(" ")[0], what, rep)
-    if not pr["ok"] and not fails:
+        hard |= bool(ctx.finding("C15:" + what.split(" ")[0], what, rep))
+    if not pr["ok"] and not hard:
         ctx.violation("proof obligation no longer checks: %s" % pr["broken"], {"theorem_or_file": pr["broken"], "log": pr["log"][-3000:]}, no_input=True)
-    if corr_broken and not fails:
+    if corr_broken and not hard:
         ctx.violation("correspondence broken: " + corr_broken[0], {"correspondence": corr_broken[0], "cases": corr_broken[1]}, no_input=True)
 
 
